@@ -3,11 +3,15 @@
    statement, [Example]s (non-vacuity, *_refuted witnesses by vm_compute), [Print Assumptions].
 
    The model (Inval/Model.v) is parameterised by [variant]: (v_own_only, v_consult) = (false, false) is the
-   code before the repair of P15, (true, true) after it; [v_code] is what Gen/DiffTables.v, regenerated from
-   /repo, says the source does now.  Every theorem quantifies over every schedule [order] of the step threads'
+   code before the repair of P15, (true, true) after it; v_glob_content = false is the code before the repair of
+   glob-member-touch (P73: GlobDep::diff_thorough compares the metadata digests too), true after it; [v_code] is
+   what Gen/DiffTables.v, regenerated from /repo, says the code does now (two source facts, one executed table).
+   [tho_same (msens v cfg)] is "the code's thorough comparison finds the record identical", [content_same] is
+   "names and contents are what the record says" (the property's "unchanged"); they coincide outside the class
+   Known_glob_touch, which is empty when v_glob_content v = true.  Every theorem quantifies over every schedule [order] of the step threads'
    check phases.  A step is "executed" when its number is in [o_exec] (the journal of the run). *)
 From Coq Require Import List Bool NArith Arith.
-From XV Require Import Gen.DiffTables Inval.Model Inval.Proofs.
+From XV Require Import Gen.DiffTables Inval.Model Inval.Proofs Inval.Outcomes.
 Import ListNotations.
 
 (* ---- 1. steps marked never never execute: every variant, every schedule ------------------------------ *)
@@ -23,18 +27,22 @@ Proof. exact (failed_run_records_nothing_lemma v cfg recs world order). Qed.
 
 (* ---- 3. a really changed dependency is acted on: every variant --------------------------------------
    [d] is a dependency of step [i] that no step's command writes; its recorded fingerprints differ from the
-   world's (no record at all, or superficial AND thorough fingerprints differ: edits_visible).  If the thread
+   world's (no record at all, or superficial AND content-level fingerprints differ: edits_visible; [tho_compare false]
+   is the comparison of the content-level fingerprints alone).  If the thread
    of [i] ends in a terminal state, the command was executed, or [i] is broken because a step it depends on
    is broken, or because another of its dependencies cannot be inspected. *)
 Theorem change_is_acted_on v cfg recs world i c d w order :
   nth_error cfg i = Some c -> In d (s_deps c) -> rc_never (rcond c) = false ->
   getN world d = Some w ->
-  changed (sup_compare (getN recs d) w) = true -> changed (tho_compare (getN recs d) w) = true ->
+  changed (sup_compare (getN recs d) w) = true -> changed (tho_compare false (getN recs d) w) = true ->
   (forall k ck, nth_error cfg k = Some ck -> ~ In d (map fst (s_effs ck))) ->
   let o := run v cfg recs world order in
   is_terminal (nth i (o_states o) LInit) = true ->
   In i (o_exec o) \/ nth i (o_states o) LInit = LBroken BDepSteps \/ nth i (o_states o) LInit = LBroken BMissingDep.
-Proof. intros H1 H2 H3 H4 H5 H6 H7. exact (change_is_acted_on_lemma v cfg recs world i c d w H1 H2 H3 H4 H5 H6 H7 order). Qed.
+Proof.
+  intros H1 H2 H3 H4 H5 H6 H7.
+  exact (change_is_acted_on_lemma v cfg recs world i c d w H1 H2 H3 H4 H5 (tho_changed_mono _ _ _ H6) H7 order).
+Qed.
 
 (* ---- 4. execution propagates to dependent steps: variants whose thorough-not-changed branch consults the
         dependency steps (the repaired code) ---------------------------------------------------------------- *)
@@ -63,7 +71,7 @@ Proof. intros H1 H2. exact (forced_runs_lemma v cfg recs world i c H1 H2 order).
    [i] depends on their step.  Then [i] is executed only if a step it depends on was executed. *)
 Definition unrelated_not_executed_at (v : variant) cfg recs world i c order : Prop :=
   nth_error cfg i = Some c -> rc_always (rcond c) = false ->
-  (forall d, In d (s_deps c) -> tho_same recs world d = true) ->
+  (forall d, In d (s_deps c) -> tho_same (msens v cfg) recs world d = true) ->
   (forall k ck d, nth_error cfg k = Some ck -> In d (s_deps c) -> In d (map fst (s_effs ck)) -> In k (s_edges c)) ->
   In i (o_exec (run v cfg recs world order)) ->
   exists j, In j (s_edges c) /\ In j (o_exec (run v cfg recs world order)).
@@ -76,7 +84,7 @@ Proof. intros H cfg recs world i c order H1 H2 H3 H4. exact (unrelated_not_execu
 Theorem touch_is_not_change v cfg recs world i c order :
   v_own_only v = true ->
   nth_error cfg i = Some c -> rc_always (rcond c) = false ->
-  (forall d, In d (s_deps c) -> tho_same recs world d = true) ->
+  (forall d, In d (s_deps c) -> tho_same (msens v cfg) recs world d = true) ->
   (forall k ck d, nth_error cfg k = Some ck -> In d (s_deps c) -> In d (map fst (s_effs ck)) -> In k (s_edges c)) ->
   (forall j, In j (s_edges c) -> ~ In j (o_exec (run v cfg recs world order))) ->
   ~ In i (o_exec (run v cfg recs world order)).
@@ -89,7 +97,7 @@ Qed.
 (* the unrepaired code (every variant, in fact) outside the class Known_P15: no step is touch-only, or no step
    has a really changed dependency and no command writes dependencies *)
 Theorem unrelated_not_executed_outside_P15 v cfg recs world i c order :
-  Known_P15 cfg recs world = false -> unrelated_not_executed_at v cfg recs world i c order.
+  Known_P15 (msens v cfg) cfg recs world = false -> unrelated_not_executed_at v cfg recs world i c order.
 Proof. intros Hk H1 H2 H3 H4. exact (unrelated_outside_P15_lemma v cfg recs world i c H1 H2 H3 H4 Hk order). Qed.
 
 (* ---- 7. after a fully successful run, a second run on the same world -----------------------------------------
@@ -101,7 +109,7 @@ Theorem successful_run_settles v cfg recs world i c d order :
   effects_downstream cfg -> edits_visible cfg recs world ->
   nth_error cfg i = Some c -> In d (s_deps c) -> rc_never (rcond c) = false ->
   let o := run v cfg recs world order in
-  forallb is_done (o_states o) = true -> tho_same (o_records o) (o_world o) d = true.
+  forallb is_done (o_states o) = true -> tho_same (msens v cfg) (o_records o) (o_world o) d = true.
 Proof.
   intros He Hv Hc Hd Hn.
   exact (successful_run_settles_lemma v cfg recs world i c d Hc Hd Hn
@@ -114,7 +122,7 @@ Theorem rerun_on_unchanged_world v cfg recs world order1 order2 :
   effects_downstream cfg -> edits_visible cfg recs world ->
   let o1 := run v cfg recs world order1 in
   forallb is_done (o_states o1) = true ->
-  v_own_only v = true \/ Known_P15 cfg (o_records o1) (o_world o1) = false ->
+  v_own_only v = true \/ Known_P15 (msens v cfg) cfg (o_records o1) (o_world o1) = false ->
   let o2 := run v cfg (o_records o1) (o_world o1) order2 in
   forall i c, nth_error cfg i = Some c -> In i (o_exec o2) ->
               rc_always (rcond c) = true \/ exists j, In j (s_edges c) /\ In j (o_exec o2).
@@ -126,11 +134,75 @@ Theorem rerun_only_forced v cfg recs world order1 order2 :
   effects_downstream cfg -> edits_visible cfg recs world ->
   let o1 := run v cfg recs world order1 in
   forallb is_done (o_states o1) = true ->
-  v_own_only v = true \/ Known_P15 cfg (o_records o1) (o_world o1) = false ->
+  v_own_only v = true \/ Known_P15 (msens v cfg) cfg (o_records o1) (o_world o1) = false ->
   Known_downstream_edge cfg = false ->
   let o2 := run v cfg (o_records o1) (o_world o1) order2 in
   forall i c, nth_error cfg i = Some c -> In i (o_exec o2) -> rc_always (rcond c) = true.
 Proof. exact (rerun_only_forced_lemma v cfg recs world order1 order2). Qed.
+
+(* ---- 8. glob-member-touch (P73): "a touch is not a change" stated on names and contents ---------------------------
+   Step [i] is neither always nor without dependencies; names and contents of each of its dependencies are what the
+   record says (modification times may differ, also those of the members of a --glob dependency); commands write
+   dependencies of [i] only if [i] depends on their step.  Then [i] is executed only if a step it depends on was. *)
+Definition content_unchanged_not_executed_at (v : variant) cfg recs world i c order : Prop :=
+  nth_error cfg i = Some c -> rc_always (rcond c) = false ->
+  (forall d, In d (s_deps c) -> content_same recs world d = true) ->
+  (forall k ck d, nth_error cfg k = Some ck -> In d (s_deps c) -> In d (map fst (s_effs ck)) -> In k (s_edges c)) ->
+  In i (o_exec (run v cfg recs world order)) ->
+  exists j, In j (s_edges c) /\ In j (o_exec (run v cfg recs world order)).
+Definition C12_touch_full (v : variant) : Prop :=
+  forall cfg recs world i c order, content_unchanged_not_executed_at v cfg recs world i c order.
+
+(* the repaired code: no class excluded *)
+Theorem C12_touch_full_fixed v : v_own_only v = true -> v_glob_content v = true -> C12_touch_full v.
+Proof.
+  intros Ho Hg cfg recs world i c order H1 H2 H3 H4.
+  exact (content_unchanged_not_executed_lemma v cfg recs world i c Ho (glob_class_empty_when_fixed_lemma v cfg recs world Hg) H1 H2 H3 H4 order).
+Qed.
+
+(* every variant that restricts the thorough pass, outside the boolean class *)
+Theorem touch_outside_glob_class v cfg recs world i c order :
+  v_own_only v = true -> Known_glob_touch v cfg recs world = false ->
+  content_unchanged_not_executed_at v cfg recs world i c order.
+Proof. intros Ho Hk H1 H2 H3 H4. exact (content_unchanged_not_executed_lemma v cfg recs world i c Ho Hk H1 H2 H3 H4 order). Qed.
+
+Theorem glob_class_empty_when_fixed v cfg recs world :
+  v_glob_content v = true -> Known_glob_touch v cfg recs world = false.
+Proof. exact (glob_class_empty_when_fixed_lemma v cfg recs world). Qed.
+
+(* what the code compares is at least the content: the code-relative notion implies the content-level one, and they
+   coincide outside the class *)
+Theorem code_unchanged_iff_content_unchanged v cfg recs world d :
+  Known_glob_touch v cfg recs world = false ->
+  (tho_same (msens v cfg) recs world d = true <-> content_same recs world d = true).
+Proof. intros Hk. exact (conj (tho_same_content _ recs world d) (content_to_tho v cfg recs world d Hk)). Qed.
+
+(* the variant selected by the regenerated tables compares a --glob dependency as the executed table of
+   GlobDep::diff_thorough / diff_superficial says *)
+Theorem code_variant_is_glob_table r w :
+  changed (tho_compare (negb (v_glob_content v_code)) (Some r) w) =
+    diff_changed (glob_tho_kind (N.eqb (fst r) (fst w)) (N.eqb (fst r) (fst w)) (if N.eqb (snd r) (snd w) then GCsame else GCdiff)) /\
+  changed (sup_compare (Some r) w) = diff_changed (glob_sup_kind (N.eqb (fst r) (fst w)) (N.eqb (fst r) (fst w))).
+Proof. exact (conj (glob_table_is_tho_compare r w) (glob_table_is_sup_compare r w)). Qed.
+
+(* ---- 9. all_outcomes (what the correspondence check compares the real runs with) is exactly the set of outcomes of
+        the maximal schedules: [quiescent]: no thread can take a phase any more.  Phases of threads that are not
+        enabled may occur anywhere in a schedule (they do nothing), so "every schedule" of 1-8 and "all_outcomes"
+        speak about the same runs. ------------------------------------------------------------------------------ *)
+Theorem all_outcomes_sound v cfg recs world o :
+  In o (all_outcomes v cfg recs world) ->
+  exists order, o = run v cfg recs world order /\ quiescent cfg (run_events v cfg recs (init_state world) order) = true.
+Proof. exact (all_outcomes_sound_lemma v cfg recs world o). Qed.
+
+Theorem all_outcomes_complete v cfg recs world order :
+  quiescent cfg (run_events v cfg recs (init_state world) order) = true ->
+  In (run v cfg recs world order) (all_outcomes v cfg recs world).
+Proof. exact (all_outcomes_complete_lemma v cfg recs world order). Qed.
+
+(* in particular every complete outcome (each thread reached a verdict) of any schedule *)
+Theorem complete_outcome_in_all_outcomes v cfg recs world order :
+  o_complete (run v cfg recs world order) = true -> In (run v cfg recs world order) (all_outcomes v cfg recs world).
+Proof. exact (complete_outcome_in_all_lemma v cfg recs world order). Qed.
 
 (* ---- the statements are pinned -------------------------------------------------------------------------- *)
 Check never_is_never : forall v cfg recs world order i c,
@@ -139,10 +211,17 @@ Check failed_run_records_nothing : forall v cfg recs world order,
   forallb is_done (o_states (run v cfg recs world order)) = false -> o_records (run v cfg recs world order) = recs.
 Check propagates_downstream : forall v, v_consult v = true -> propagates v.
 Check unrelated_not_executed : forall v, v_own_only v = true -> C12_unrelated_full v.
+Check C12_touch_full_fixed : forall v, v_own_only v = true -> v_glob_content v = true -> C12_touch_full v.
+Check all_outcomes_complete : forall v cfg recs world order,
+  quiescent cfg (run_events v cfg recs (init_state world) order) = true -> In (run v cfg recs world order) (all_outcomes v cfg recs world).
+Check glob_class_empty_when_fixed : forall v cfg recs world, v_glob_content v = true -> Known_glob_touch v cfg recs world = false.
 
 (* ---- witnesses ---------------------------------------------------------------------------------------------- *)
 Definition mk (w : when3) (deps : list dep) (sdeps ideps : list step) (ok : bool) (effs : list (dep * wval)) : stepcfg :=
-  {| s_when := w; s_deps := deps; s_sdeps := sdeps; s_ideps := ideps; s_ok := ok; s_effs := effs |}.
+  {| s_when := w; s_deps := deps; s_globs := []; s_sdeps := sdeps; s_ideps := ideps; s_ok := ok; s_effs := effs |}.
+(* a step whose dependencies are all --glob dependencies *)
+Definition mkg (w : when3) (deps : list dep) (sdeps ideps : list step) (ok : bool) (effs : list (dep * wval)) : stepcfg :=
+  {| s_when := w; s_deps := deps; s_globs := deps; s_sdeps := sdeps; s_ideps := ideps; s_ok := ok; s_effs := effs |}.
 
 (* P15: steps A(file a), B(file b); a touched (superficial 10 -> 11), b edited (20/200 -> 21/201) *)
 Definition cfgP15 : config := [mk WByDependencies [1%N] [] [] true []; mk WByDependencies [2%N] [] [] true []].
@@ -154,7 +233,7 @@ Example P15_order_a : o_exec (run v_unfixed cfgP15 recsP15 worldP15 [0; 1; 0; 1]
 Proof. vm_compute. reflexivity. Qed.
 Example P15_order_b : o_exec (run v_unfixed cfgP15 recsP15 worldP15 [0; 0; 1; 1]) = [1].
 Proof. vm_compute. reflexivity. Qed.
-Example P15_class : Known_P15 cfgP15 recsP15 worldP15 = true.
+Example P15_class : Known_P15 (msens v_unfixed cfgP15) cfgP15 recsP15 worldP15 = true.
 Proof. vm_compute. reflexivity. Qed.
 
 Theorem spurious_rerun_refuted : ~ C12_unrelated_full v_unfixed.
@@ -188,7 +267,7 @@ Proof.
   destruct Hx as [Hx | []]. discriminate Hx.
 Qed.
 
-Theorem propagates_downstream_refuted_half_fix : ~ propagates {| v_own_only := true; v_consult := false |}.
+Theorem propagates_downstream_refuted_half_fix : ~ propagates {| v_own_only := true; v_consult := false; v_glob_content := true |}.
 Proof.
   intros H.
   destruct (H cfgDown recsDown worldDown 1 (mk WByDependencies [1%N] [0] [] true []) 0 [0; 1; 1]) as [Hx | [Hx | Hx]];
@@ -201,7 +280,7 @@ Proof. vm_compute. reflexivity. Qed.
 
 (* non-vacuity of 3 (change_is_acted_on): B's dependency 2 really changed; of 2: a failing step *)
 Example acted_example :
-  changed (sup_compare (getN recsP15 2%N) (21, 201)%N) = true /\ changed (tho_compare (getN recsP15 2%N) (21, 201)%N) = true /\
+  changed (sup_compare (getN recsP15 2%N) (21, 201)%N) = true /\ changed (tho_compare false (getN recsP15 2%N) (21, 201)%N) = true /\
   In 1 (o_exec (run v_unfixed cfgP15 recsP15 worldP15 [1; 0; 1; 0])).
 Proof. vm_compute. repeat split; now left. Qed.
 
@@ -211,11 +290,64 @@ Example failed_example :
   o_exec o = [0] /\ o_states o = [LBroken BExit; LBroken BDepSteps; LDone false] /\ o_records o = recsP15.
 Proof. vm_compute. repeat split; reflexivity. Qed.
 
+
+(* glob-member-touch: one step with a --glob dependency (number 1) whose member was touched: superficial fingerprint
+   10 -> 11, names and contents 100 as recorded.  Before the repair the step is executed, after it it is not. *)
+Definition v_glob_unfixed : variant := {| v_own_only := true; v_consult := true; v_glob_content := false |}.
+Definition cfgGlob : config := [mkg WByDependencies [1%N] [] [] true []].
+Definition recsGlob : list (dep * wval) := [(1, (10, 100))]%N.
+Definition worldGlob : list (dep * wval) := [(1, (11, 100))]%N.
+
+Theorem glob_touch_refuted : ~ C12_touch_full v_glob_unfixed.
+Proof.
+  intros H.
+  destruct (H cfgGlob recsGlob worldGlob 0 (mkg WByDependencies [1%N] [] [] true []) [0; 0]) as [j [Hj _]].
+  - reflexivity.
+  - reflexivity.
+  - intros d [<- | []]. reflexivity.
+  - intros k ck d Hk _ Hd. destruct k as [|k]; cbn in Hk; [injection Hk as <-; cbn in Hd; destruct Hd | destruct k; discriminate Hk].
+  - vm_compute. now left.
+  - destruct Hj.
+Qed.
+Example glob_touch_class : Known_glob_touch v_glob_unfixed cfgGlob recsGlob worldGlob = true /\
+                           Known_glob_touch v_fixed cfgGlob recsGlob worldGlob = false.
+Proof. vm_compute. split; reflexivity. Qed.
+(* every schedule: executed before the repair, not executed after it; a changed, an added or a removed member
+   (content-level fingerprint 100 -> 101) is acted on by both *)
+Example glob_touch_all_schedules :
+  map (fun o => o_exec o) (all_outcomes v_glob_unfixed cfgGlob recsGlob worldGlob) = [[0]] /\
+  map (fun o => o_exec o) (all_outcomes v_fixed cfgGlob recsGlob worldGlob) = [[]] /\
+  map (fun o => o_exec o) (all_outcomes v_glob_unfixed cfgGlob recsGlob [(1, (11, 101))]%N) = [[0]] /\
+  map (fun o => o_exec o) (all_outcomes v_fixed cfgGlob recsGlob [(1, (11, 101))]%N) = [[0]].
+Proof. vm_compute. repeat split; reflexivity. Qed.
+(* the same touch on a dependency that is not a --glob (a file): not executed by either (non-vacuity of the class) *)
+Example file_touch_not_executed :
+  map (fun o => o_exec o) (all_outcomes v_glob_unfixed [mk WByDependencies [1%N] [] [] true []] recsGlob worldGlob) = [[]] /\
+  Known_glob_touch v_glob_unfixed [mk WByDependencies [1%N] [] [] true []] recsGlob worldGlob = false.
+Proof. vm_compute. split; reflexivity. Qed.
+(* after the repair the record keeps the fingerprints of the last change (as for a file): the touch stays visible
+   superficially and the next run compares contents again without executing *)
+Example glob_touch_fixed_records :
+  let o := run v_fixed cfgGlob recsGlob worldGlob [0; 0] in
+  o_exec o = [] /\ o_records o = recsGlob /\ o_states o = [LDone false].
+Proof. vm_compute. repeat split; reflexivity. Qed.
+
+
+(* non-vacuity of 9: a schedule with phases of threads that are not enabled (1 before 0 finished, repeated phases)
+   is maximal and complete, its outcome is one of the two of all_outcomes; a schedule that stops early is not *)
+Example outcomes_example :
+  quiescent cfgDown (run_events v_fixed cfgDown recsDown (init_state worldDown) [1; 1; 0; 1; 0; 1; 1]) = true /\
+  o_complete (run v_fixed cfgDown recsDown worldDown [1; 1; 0; 1; 0; 1; 1]) = true /\
+  In (run v_fixed cfgDown recsDown worldDown [1; 1; 0; 1; 0; 1; 1]) (all_outcomes v_fixed cfgDown recsDown worldDown) /\
+  quiescent cfgDown (run_events v_fixed cfgDown recsDown (init_state worldDown) [0; 1]) = false /\
+  length (all_outcomes v_unfixed cfgP15 recsP15 worldP15) = 6.
+Proof. vm_compute. repeat split; try reflexivity. now left. Qed.
+
 (* the first sentence of the property read literally ("executes no step except those marked always or having
    no dependencies at all") is refuted, by design, downstream of such a step *)
 Definition C12_rerun_full (v : variant) : Prop :=
   forall cfg recs world order i c,
-  (forall k ck d, nth_error cfg k = Some ck -> In d (s_deps ck) -> tho_same recs world d = true) ->
+  (forall k ck d, nth_error cfg k = Some ck -> In d (s_deps ck) -> content_same recs world d = true) ->
   nth_error cfg i = Some c -> In i (o_exec (run v cfg recs world order)) -> rc_always (rcond c) = true.
 Definition cfgAlw : config := [mk WAlways [] [] [] true []; mk WByDependencies [] [0] [] true []].
 Theorem rerun_full_refuted v : ~ C12_rerun_full v.
@@ -225,7 +357,7 @@ Proof.
   { apply H.
     - intros k ck d Hk Hd. destruct k as [|[|k]]; cbn in Hk; [injection Hk as <-; cbn in Hd; destruct Hd | injection Hk as <-; cbn in Hd; destruct Hd | destruct k; discriminate Hk].
     - reflexivity.
-    - destruct v as [[] []]; vm_compute; right; now left. }
+    - destruct v as [[] [] []]; vm_compute; right; now left. }
   discriminate X.
 Qed.
 Example rerun_class : Known_downstream_of_forced cfgAlw = true.
@@ -236,7 +368,7 @@ Proof. vm_compute. reflexivity. Qed.
 Example rerun_example :
   let o1 := run v_unfixed cfgP15 [] worldP15 [0; 1; 0; 1] in
   o_exec o1 = [0; 1] /\ forallb is_done (o_states o1) = true /\ o_records o1 = worldP15 /\
-  Known_P15 cfgP15 (o_records o1) (o_world o1) = false /\ Known_downstream_edge cfgP15 = false /\
+  Known_P15 (msens v_unfixed cfgP15) cfgP15 (o_records o1) (o_world o1) = false /\ Known_downstream_edge cfgP15 = false /\
   map (fun o => o_exec o) (all_outcomes v_unfixed cfgP15 (o_records o1) (o_world o1)) = [[]; []] /\
   map (fun o => o_exec o) (all_outcomes v_fixed cfgP15 (o_records o1) (o_world o1)) = [[]; []].
 Proof. vm_compute. repeat split; reflexivity. Qed.
@@ -263,3 +395,12 @@ Print Assumptions spurious_rerun_refuted.
 Print Assumptions propagates_downstream_refuted_unfixed.
 Print Assumptions propagates_downstream_refuted_half_fix.
 Print Assumptions rerun_full_refuted.
+Print Assumptions C12_touch_full_fixed.
+Print Assumptions touch_outside_glob_class.
+Print Assumptions glob_class_empty_when_fixed.
+Print Assumptions code_unchanged_iff_content_unchanged.
+Print Assumptions code_variant_is_glob_table.
+Print Assumptions glob_touch_refuted.
+Print Assumptions all_outcomes_sound.
+Print Assumptions all_outcomes_complete.
+Print Assumptions complete_outcome_in_all_outcomes.
